@@ -9,6 +9,13 @@ abbrev RS := RState PState
 
 def rInit (s : Sys) : RS :=
   { procs := s.nodes.flatMap fun nd => nd.2.procs.map fun pe => (pe.1, ({ st := pe.2.st, outbox := pe.2.outbox } : RProc PState)),
+    crashedNodes := (s.nodes.filter (·.2.crashed)).map (·.1),
+    flights := s.events.events.filterMap (fun x => match x.2 with
+      | .msg m sr d o => some (⟨m, sr, d, o⟩ : Flight)
+      | _ => Option.none),
+    timers := s.events.events.filterMap (fun x => match x.2 with
+      | .timer p n d => some (⟨p, n, d⟩ : PTimer)
+      | _ => Option.none),
     net := s.net, trace := s.trace }
 
 def rApplyCb (h : Handler PState) (rm : RS × Mode) : List String → Option (RS × Mode)
